@@ -389,6 +389,8 @@ class Recfile(object):
                 result = self._read_columns(colnums, rows)
 
         if isscalar:
+            if columns is None:
+                columns = fields
             result = result[columns]
         elif split:
             result = split_fields(result)
